@@ -410,12 +410,15 @@ def transport_id(g, kind, name_len=9):
         v = g.raw("sas", 8)
         return [0x06, 0, 0, 0] + list(v) + [0] * 12, {"tpid_format": 0, "protocol_id": 6, "sas_address": v}
     name = ("iqn.1993-08.org.debian:01:" + "x" * 200)[:name_len]
-    if kind == "iscsi-name":
-        s, fmt, e = name, 0, {"iscsi_name": name}
-    else:
-        isid = "00023d000001"
+    if kind.endswith("-utf8"):
+        # iSCSI names are UTF-8 (RFC 3722): characters of two and three bytes
+        name = ("iqn.2005-03.org.example:b\u00fcro-\u6771\u4eac-" + "\u00e9" * 200)[:max(name_len, 25)]
+    if kind.startswith("iscsi-name-isid"):
+        isid = "00023D0000A1" if kind.endswith("-upper") else "00023d000001"
         s, fmt, e = name + ",i,0x" + isid, 1, {"iscsi_name": name, "iscsi_initiator_session_id": isid}
-    raw = list(s.encode("ascii")) + [0]
+    else:
+        s, fmt, e = name, 0, {"iscsi_name": name}
+    raw = list(s.encode("utf-8")) + [0]
     while len(raw) % 4:
         raw.append(0)
     e.update({"tpid_format": fmt, "protocol_id": 5})
